@@ -34,6 +34,14 @@ def gen_cases(tier, rng):
             ts = None if r.chance(1, 2) else {"retries": r.below(3)}
             cases.append({"id": "mut/%d/%d" % (s["seed"], j), "hex": assemble(with_ts(s["settings"], ts), evs, s["bz"]),
                           "meta": {"stream": "mut:" + kind.split("@")[0].split("+")[0], "kind": kind}})
+    for s in sp:
+        for tag, evs in count_field_cases(s):
+            cases.append({"id": "count/%d/%s" % (s["seed"], tag), "hex": assemble(s["settings"], evs, s["bz"]),
+                          "meta": {"stream": "count-fields", "kind": tag}})
+    for s in sp[: len(sp) // 3]:
+        for j, (tag, evs) in enumerate(reordered_extreme_cases(s, r)):
+            cases.append({"id": "reorder/%d/%d" % (s["seed"], j), "hex": assemble(s["settings"], evs, s["bz"]),
+                          "meta": {"stream": "reordered-extreme", "kind": tag}})
     # every truncation of every datagram of a few scripts
     for s in sp[: (6 if tier == "quick" else 150)]:
         for w in range(len(s["dgs"])):
